@@ -172,6 +172,47 @@ func c04Program(c *engine.Ctx, prog string, inputs []any, cfgs []c04Config) {
 	}
 }
 
+// c04ConstIdentity compares the configurations on one program of the constant-identity family; a difference that un-folding
+// the literal alone produces is the recorded finding, anything else an ordinary violation.
+func c04ConstIdentity(c *engine.Ctx, prog string, cfgs []c04Config) {
+	base, baseSig, berr, _ := compileWith(prog, 0)
+	if berr != nil {
+		return
+	}
+	bo := RunCode(base, nil, DefaultBudget)
+	c.Eval()
+	// what switching off the folding of array or object literals alone gives
+	folding := map[string]bool{}
+	for _, cfg := range cfgs {
+		if cfg.name == "off:constArray" || cfg.name == "off:constObject" {
+			if code, sig, err, _ := compileWith(prog, cfg.off); err == nil && sig != baseSig {
+				folding[RunCode(code, nil, DefaultBudget).String()] = true
+			}
+		}
+	}
+	for _, cfg := range cfgs {
+		code, sig, err, _ := compileWith(prog, cfg.off)
+		if err != nil || sig == baseSig {
+			continue
+		}
+		o := RunCode(code, nil, DefaultBudget)
+		c.Eval()
+		c.DistinctN(1)
+		same, _, why := sameOut(bo, o)
+		if same {
+			c.Outcome("constant-identity: same")
+			continue
+		}
+		// the recorded finding: the difference is exactly the one that un-folding the literal alone produces
+		kind := "optimisation-observable"
+		if cfg.name == "off:constArray" || cfg.name == "off:constObject" || cfg.name == "all-off" && folding[o.String()] {
+			kind = "deviation:folded-constant-identity"
+		}
+		c.Outcome("constant-identity: " + kind)
+		c.Violation(prog+"\t"+cfg.name, kind, map[string]any{"query": prog, "config": cfg.name, "off": cfg.off, "input": univ.ToTagged(nil), "why": why, "all_on": bo.String(), "config_out": o.String()})
+	}
+}
+
 func c04Replay(v *engine.Violation) (bool, string) {
 	q, _ := v.Detail["query"].(string)
 	off := uint32(0)
@@ -322,6 +363,26 @@ func c04Run(c *engine.Ctx) {
 		ins := append(append([]any{}, sc.Inputs...), small[:4]...)
 		c04Program(c, sc.Query, ins, cfgs)
 	}
+	// a folded literal is one object for every evaluation, a constructed one is new each time: the two must not be
+	// told apart by the path machinery, which compares containers by identity
+	c.Sub("constant-identity")
+	if c.MineIdx(0) {
+		lits := []string{"[1,2]", "{a:1}", "{a:[1]}", "[[1]]", `["a"]`, `{"a":{"b":2}}`, "[]", "{}"}
+		forms := []string{"def c: L; c | path(c | P)", "def c: L; c | [paths(c | P)]?", "def c: L; c | (c | P) = 9", "def c: L; c | (c | P) |= 9", "def c: L; c | del(c | P)",
+			"[range(2) | L] | .[0] as $x | .[1] | path($x | P)", "[L, L] | .[0] as $x | .[1] | path($x | P)", "def c: L; [c, c] | .[0] as $x | .[1] | path($x | P)",
+			"def c: L; c as $x | c | path($x | P)", "def c: L; c | path(c)", "def c: L; c | path(c | first(P))", "def c: L; def d: c; d | path(c | P)", "reduce range(2) as $i (null; if . == null then L else path(L | P) end)"}
+		navs := []string{".[0]", ".a", ".[]", ".a[0]?", "..", ".[0]?", ".a?"}
+		for _, l := range lits {
+			for _, f := range forms {
+				for _, nav := range navs {
+					prog := strings.ReplaceAll(strings.ReplaceAll(f, "L", l), "P", nav)
+					c04ConstIdentity(c, prog, cfgs)
+				}
+			}
+		}
+	}
+	c.Sample(map[string]any{"program": "def c: [1,2]; c | path(c | .[0])", "all_on": "[0] (the folded literal meets itself)", "const-array off": "invalid path (two constructed arrays)"})
+
 	c.Sub("towers")
 	ti := 0
 	towerPrograms(2, func(p string) {
